@@ -18,10 +18,11 @@ S13 the one-node re-typers check_or_constrain_* are only the leaf case of constr
 S14 inside a collection an unspecified number type is only re-typed in place to a number type of the same (32-bit) width
 S15 zero-sized types and empty arrays: no division by a type width, no trapping `element count - constant` in the lowering
 S16 a function whose parameters have no bits is refused before the circuit is built (`some input bit`)
-S17 a re-typed match / if takes over the type of its branches only when all branch types compared equal
+S17 a re-typed match / if / array literal takes over the type of its branches / elements only when all of their types compared equal
+S18 the Range arm of constrain_type re-types an untyped range for signed as well as for unsigned expected element types
 S12 the number type stored in a Range node (which the lowering sizes the elements with) follows the re-typing of the range
 """
-from .. import mir
+from .. import mir, protocol
 from ..core import AnchorMissing, Finding, RuleResult
 from . import C12, C14
 
@@ -40,7 +41,7 @@ LEVEL_TEXT = (
     "accepting exit - otherwise the node's type says u16 while its literals are still lowered as 32-bit values and the circuit has "
     "the wrong output width; (S3) the builder receives the collected input parties, and build() is given exactly the wires "
     "returned by the function body. The 161 panic bits are C02-P5, the literal layout is C09, the join row widths are C13-J6."
-    " Also decided since the hunter rounds: the number type stored in a Range node follows re-typing (S12); the one-node re-typers are only the leaf case of constrain_type (S13); inside a collection an unspecified number type is re-typed in place only to a 32-bit type (S14); no division by a type width or element count and no trapping `count - c` in the lowering (S15); a function without any input bit is refused before the circuit is built (S16); a re-typed match / if adopts its branches' type only when they all agree (S17).")
+    " Also decided since the hunter rounds: the number type stored in a Range node follows re-typing (S12); the one-node re-typers are only the leaf case of constrain_type (S13); inside a collection an unspecified number type is re-typed in place only to a 32-bit type (S14); no division by a type width or element count and no trapping `count - c` in the lowering (S15); a function without any input bit is refused before the circuit is built (S16); a re-typed match / if / array literal adopts its branches' / elements' type only when they all agree (S17); an untyped range can be re-typed for signed as well as unsigned element types (S18).")
 LEVEL_NOTE = ("Trusted: rustc MIR. The S2 table (which children share the node's type) was filled by reading the language documentation; "
               "it names children by their position in the ExprEnum variant.")
 EXPLANATION = "Functions analysed: TypedProgram::compile_with_constants (parameter wiring, builder construction, build call), check::constrain_type."
@@ -487,7 +488,9 @@ def rule_s12(ctx):
                 continue
             roots = cb.trace({"l": st["place"]["l"], "p": [], "ty": ""}, through={})
             if any(r == SELF1 and "as Range" in p and p[-1] == "2" for (r, p) in roots):
-                val = cb.trace_operand(st["rv"]["op"]) if st["rv"]["k"] == "use" else set()
+                # (the stored type may be picked in a match over the expected element type: the expected unsigned type itself, or
+                # the unsigned type as wide as an expected signed type)
+                val = cb.deep_sources(st["rv"]["op"], 4) if st["rv"]["k"] == "use" else set()
                 writes.append((b, st, any(r == ("arg", 2) and "as Unsigned" in p for (r, p) in val)))
     if any(w[2] for w in writes):
         res.ok({"lowering": "element width from the number type stored in the Range node", "checker": "constrain_type stores the expected element type in the node (line %d)" % [w for w in writes if w[2]][0][1]["sp"][1]})
@@ -736,10 +739,24 @@ def rule_s17(ctx):
     is a variable holding a collection of untyped numbers may keep its type, S14); taking the first branch's type regardless lets
     the node claim a wider type than one of its branches supplies wires for."""
     from . import C02
-    res = RuleResult("S17", "a re-typed match / if takes the type of its branches only when all branches agree")
+    res = RuleResult("S17", "a re-typed match / if / array literal takes the type of its branches / elements only when all of them agree")
     fid = "check::constrain_type"
     body = ctx.body(fid)
-    for variant in ("Match", "If"):
+
+    def compares_types(clo):
+        return clo and ctx.has_fn(clo) and any(tt["func"].get("declared") in ("std::cmp::PartialEq::eq", "std::cmp::PartialEq::ne") and "ast::Type" in "".join(tt["func"].get("substs") or [])
+                                               for _, tt in ctx.body(clo).calls())
+
+    def predicate_of(c):
+        for a in c["args"][1:]:
+            if a["k"] in ("copy", "move"):
+                for (rr, pp) in body.trace(a["place"], through={}):
+                    if rr[0] == "agg":
+                        clo = body.blocks[rr[1]]["stmts"][rr[2]]["rv"].get("closure")
+                        if compares_types(clo):
+                            return clo
+        return None
+    for variant in ("Match", "If", "ArrayLiteral"):
         succ = body.pruned_succ({C02.INNER: variant})
         region = set(body.reachable([0], succ=succ))
         if len(region) == len(body.reachable([0])):
@@ -752,6 +769,10 @@ def rule_s17(ctx):
                 pl = st.get("place") or {}
                 if st["k"] == "assign" and pl.get("l") == 1 and [e["k"] for e in pl["p"]] == ["deref", "field"] and pl["p"][1].get("name") == "ty":
                     writes.append((b, st))
+                elif st["k"] == "assign" and pl.get("p") and pl.get("l") != 1 and variant == "ArrayLiteral":
+                    # `**actual = first.ty.clone()` with `actual` the element type inside `&mut expr.ty`
+                    if any(r == ("arg", 1) and p and p[0] == "ty" for (r, p) in body.trace(pl, through=protocol.DEREF_ONLY)):
+                        writes.append((b, st))
         if not writes:
             res.ok({"construct": variant, "verdict": "the node's type is not overwritten from a branch"})
             continue
@@ -781,6 +802,19 @@ def rule_s17(ctx):
                                     if clo and ctx.has_fn(clo) and any(tt["func"].get("declared") == "std::cmp::PartialEq::eq" and "ast::Type" in "".join(tt["func"].get("substs") or [])
                                                                           for _, tt in ctx.body(clo).calls()):
                                         edges.add((sb, t["otherwise"]))
+        # `elems.iter().find(|e| e.ty != first.ty)` / position: the None edge is the one on which all types agree
+        for sb in region:
+            info = body.switch_info(sb)
+            if info and info[0] and info[0][0][0] == "call" and info[0][1] == () and info[2].startswith("std::option::Option"):
+                c = body.term(info[0][0][1])
+                if (c["func"].get("declared") or "") in ("std::iter::Iterator::find", "std::iter::Iterator::position") and predicate_of(c):
+                    t = body.term(sb)
+                    listed = {v for v, _ in t["targets"]}
+                    for v, x in t["targets"]:
+                        if info[1].get(v) == "None":
+                            edges.add((sb, x))
+                    if any(nm == "None" and v not in listed for v, nm in info[1].items()):
+                        edges.add((sb, t["otherwise"]))
         for (b, st) in writes:
             if edges and C02._dominated_by_edges(body, edges, b):
                 res.ok({"construct": variant, "write": "line %d" % st["sp"][1], "verdict": "only after all branch types compared equal"})
@@ -791,5 +825,58 @@ def rule_s17(ctx):
     return res
 
 
+def rule_s18(ctx):
+    """`10..15` is documented as equivalent to `[10, 11, 12, 13, 14]`, and that literal can be used as an array of any number type its
+    elements fit into.  The Range arm of constrain_type is the only place that can re-type a range (S12: the node and the type move
+    together), so it has to re-type it for signed element types as well as for unsigned ones - otherwise the guide's own example
+    `pub fn main(_a: i32) -> [i32; 5] { 10..15 }` is rejected."""
+    from . import C02
+    res = RuleResult("S18", "an untyped range is re-typed for unsigned and for signed expected element types")
+    fid = "check::constrain_type"
+    body = ctx.body(fid)
+    succ = body.pruned_succ({C02.INNER: "Range"})
+    region = set(body.reachable([0], succ=succ))
+    if len(region) == len(body.reachable([0])):
+        raise AnchorMissing("S18: cannot isolate the Range arm of constrain_type")
+    writes = []
+    for b in sorted(region):
+        if body.blocks[b]["cleanup"]:
+            continue
+        for st in body.blocks[b]["stmts"]:
+            pl = st.get("place") or {}
+            if st["k"] == "assign" and pl.get("p") and any(r == ("arg", 1) and p and p[0] == "ty" for (r, p) in body.trace(pl, through=protocol.DEREF_ONLY)):
+                writes.append(b)
+    if not writes:
+        raise AnchorMissing("S18: the Range arm of constrain_type does not write the type of the range")
+    # the switch over the expected element type
+    aps = set()
+    for b in sorted(region):
+        info = body.switch_info(b)
+        if not (info and info[0] and info[2] == "ast::Type" and {"Unsigned", "Signed"} <= set(info[1].values())):
+            continue
+        root, path = info[0]
+        if root == ("arg", 2) and path and path[-1] == "0":
+            aps.add(info[0])        # matched in place: (*expected).Array.0
+        elif root[0] == "call" and mir.last_seg(str(root[2])) in ("as_ref", "deref") and not path:
+            # `elem_ty.as_ref()`: the boxed element type of the expected array type
+            c = body.term(root[1])
+            if any(r == ("arg", 2) and p and p[-1] == "0" for (r, p) in body.trace_operand(c["args"][0])):
+                aps.add(info[0])
+    if not aps:
+        raise AnchorMissing("S18: the Range arm of constrain_type does not look at the expected element type")
+    for kind in ("Unsigned", "Signed"):
+        assume = {C02.INNER: "Range"}
+        for ap in aps:
+            assume[ap] = kind
+        reach = set(body.reachable([0], succ=body.pruned_succ(assume)))
+        if reach & set(writes):
+            res.ok({"expected_element_type": kind, "verdict": "the range's type is written"})
+        else:
+            res.bad(Finding("S18", fid, "a range cannot become an array of %s numbers" % kind.lower(),
+                            "with an expected element type Type::%s no path of the Range arm re-types the range: `pub fn main(_a: i32) -> [i32; 5] { 10..15 }` (the example of the "
+                            "language guide) is rejected with `Expected type [i32; 5], but found [unspecified unsigned int; 5]`" % kind, body.fn["sp"]))
+    return res
+
+
 def run(ctx):
-    return ctx.run_rules([rule_s1, rule_s2, rule_s3, rule_s4, rule_s6, rule_s7, rule_s8, rule_s9, rule_s10, rule_s11, rule_s12, rule_s13, rule_s14, rule_s15, rule_s16, rule_s17])
+    return ctx.run_rules([rule_s1, rule_s2, rule_s3, rule_s4, rule_s6, rule_s7, rule_s8, rule_s9, rule_s10, rule_s11, rule_s12, rule_s13, rule_s14, rule_s15, rule_s16, rule_s17, rule_s18])
